@@ -11,6 +11,8 @@
     retest       a parked goroutine that was woken by Broadcast re-tests
     release      the closure returned by cancelfunc (sync.Once: first call only)
     cancelParent the caller's parent context is cancelled
+    ctx          is the context returned with grant g still live?
+    close        localLockSource.Close: a no-op (updater.localLocker has none)
   `sync.Cond.Broadcast` is modelled as "every parked goroutine becomes
   runnable"; which runnable goroutine re-tests first is not determined.
 -/
@@ -46,6 +48,7 @@ inductive Op where
   | release (g : Nat)
   | cancelParent (p : Nat)
   | ctx (g : Nat)
+  | close                    -- Close(ctx): returns nil, touches nothing
 deriving Repr
 
 inductive Out where
@@ -94,6 +97,7 @@ def step (s : State) : Op → State × Out
                   parked := s.parked.map fun w => { w with runnable := true } }, .released)
   | .cancelParent p => ({ s with deadParents := p :: s.deadParents }, .ok)
   | .ctx g => (s, .ctxLive (ctxLive s g))
+  | .close => (s, .ok)
 
 /-- The code before the `sync.Once` fix: every call of the release closure
     deletes the key, whoever holds it now.  Kept to state the defect. -/
